@@ -336,6 +336,29 @@ def lleWrap (n : Nat) (feed rowL rowl : Vec) (hasTopChemical : Bool) (rho_l rho_
 /-- `vle(feed, vap, liq, …)`; rows of `ms` after `ms.vle(..)` are parameters -/
 def vleWrap (n : Nat) (rowg rowl : Vec) : Vec × Vec := (tab n rowg.at, tab n rowl.at)
 
+/-! ### the `multi_stream=` holder of the wrappers
+
+`lle(…, multi_stream=ms)` / `vle(…, multi_stream=ms)` run the equilibrium on a caller-supplied MultiStream
+that is typically reused call after call, so it arrives holding the rows of the previous equilibrium.
+`ms.copy_like(feed)` loads the (liquid) feed: the whole feed in the `l` row, every other row emptied.
+The holder is an input of the call; `holderLoad` takes its previous rows as an argument and ignores them.
+Without `multi_stream`, `ms = feed.copy()` gives the same loaded rows. -/
+
+/-- rows `(other, l)` of the holder after `ms.copy_like(feed)`; `other` is `L` for lle and `g` for vle -/
+def holderLoad (n : Nat) (_h0 : Vec × Vec) (feed : Vec) : Vec × Vec := (tab n (fun _ => 0), tab n feed.at)
+
+/-- one whole `lle` call with the equilibrium routine as a function parameter `eqm` from the loaded rows
+`(L, l)` to the rows `(L, l)` it leaves -/
+def lleFull (n : Nat) (h0 : Vec × Vec) (feed : Vec) (eqm : Vec × Vec → Vec × Vec) (hasTopChemical : Bool)
+    (rho_l rho_L : Option Rat) (e : Rat) : Vec × Vec :=
+  let r := eqm (holderLoad n h0 feed)
+  lleWrap n feed r.1 r.2 hasTopChemical rho_l rho_L e
+
+/-- one whole `vle` call; `eqm` maps the loaded rows `(g, l)` to the rows `(g, l)` it leaves -/
+def vleFull (n : Nat) (h0 : Vec × Vec) (feed : Vec) (eqm : Vec × Vec → Vec × Vec) : Vec × Vec :=
+  let r := eqm (holderLoad n h0 feed)
+  vleWrap n r.1 r.2
+
 /-! ### `phase_split` -/
 
 /-- `for i, j in zip(feed, outlets): j.copy_like(i)`; each outlet gets the phase label and the row -/
